@@ -87,6 +87,15 @@ theorem T_C12_assemble_live (m : Mesh) :
   · rw [RT_lists]; simpa using (foldl_addOp_blocks (slavePatches m) (liveOps m) {}).1
   · rw [RT_lists]; simpa using (foldl_addOp_blocks (slavePatches m) (liveOps m) {}).2
 
+/-- The depot is a list of entities, each holding one (Operation) or several (Shape, Stack, Assembly) operations, and
+    `Mesh.assemble` runs two nested loops over it.  The nesting does not matter: the result is the single loop over all
+    operations in order, so a deleted operation is skipped and the operations after it *in the same entity* are not. -/
+theorem T_C12_entities (sl : List String) (del : List Nat) (es : List (List Op)) (l : Lists) (m : Mesh) :
+    assembleEntities sl del es l = assembleLoop sl del es.flatten l ∧
+    (entities m).flatten = m.depot ∧
+    assemble m = { m with lists := assembleLoop (slavePatches m) m.deleted m.depot m.lists } :=
+  ⟨assembleEntities_flatten sl del es l, flatten_splitGroups m.groups m.depot, assemble_flat m⟩
+
 /-- Deleting an operation and re-assembling gives the lists — hence the file — of the mesh that never held it:
     its block is gone and nothing else changes. -/
 theorem T_C12_delete (m : Mesh) (id : Nat) :
@@ -278,5 +287,11 @@ example : isAssembled (run (RT (run {} exHistory)) [.modify "inlet" "cyclic" (so
 /-- hypotheses of `T_C12_backport_single_move`: aligned (by `T_C12_aligned`) and with vertices -/
 example : Aligned (RT (run {} exHistory)) ∧ (RT (run {} exHistory)).lists.verts ≠ [] :=
   ⟨T_C12_aligned _ (T_C12_history exHistory (by simp [exHistory, Legal, step, add, exOp])).1, by decide +kernel⟩
+
+/-- one entity of three operations (a Shape), the middle one deleted: the blocks of the first and the last remain -/
+example : (run {} [.addEntity [exOp 0 [0, 1, 2, 3, 4, 5, 6, 7] none, exOp 1 [1, 8, 9, 2, 5, 10, 11, 6] none,
+      exOp 2 [8, 12, 13, 9, 10, 14, 15, 11] none], .delete 1, .assemble]).lists.blocks.map (·.opId) = [0, 2] ∧
+    (entities (run {} [.addEntity [exOp 0 [0, 1, 2, 3, 4, 5, 6, 7] none, exOp 1 [1, 8, 9, 2, 5, 10, 11, 6] none],
+      .add (exOp 2 [8, 12, 13, 9, 10, 14, 15, 11] none)])).map (·.map (·.id)) = [[0, 1], [2]] := by decide +kernel
 
 end CBV.C12
